@@ -8,6 +8,8 @@ POOL: dict[str, list[str]] = {
         "def f(a: int) -> None:\n    pass\n\ndef g() -> None:\n    f(1, zed=1, yak=2, xen=3, wim=4)\n",
         "def f(a: int, *, k: int = 0) -> None:\n    pass\n\ndef g() -> None:\n    f(1, k=2, beta=1, alpha=2, gamma=3)\n    f(delta=1, a=1, epsilon=2)\n",
         "class C:\n    def m(self, x: int) -> None:\n        pass\n\ndef g(c: C) -> None:\n    c.m(1, q=1, p=2, o=3)\n",
+        # surplus keywords collected by **kwargs: the bound TypedDict is rendered in the diagnostic
+        "def f(a: int, **kwargs: int) -> None:\n    pass\n\ndef h(a: int, /, *args: int, k: int = 0, **kw: str) -> None:\n    pass\n\ndef g() -> None:\n    f(1, zed='x', yak='y', xen=1, wim=None)\n    f(a=1, omega=b'', alpha='q', mid=2.5)\n    h(1, 2, k=3, tau=1, sigma=2, rho='ok', pi=None)\n",
     ],
     "orchain": [
         R + "\ndef f(x: object) -> None:\n    if isinstance(x, int) or isinstance(x, str) or x is None:\n        reveal_type(x)\n",
@@ -51,6 +53,16 @@ POOL: dict[str, list[str]] = {
     ],
     "narrow": [
         R + "from typing import Union, Optional\n\ndef f(x: Union[int, str, None, list[int], tuple[str, ...]]) -> None:\n    if not x:\n        reveal_type(x)\n    elif isinstance(x, (int, list)):\n        reveal_type(x)\n    else:\n        reveal_type(x)\n    while x:\n        reveal_type(x)\n        x = None\n",
+    ],
+    # several assignments to one name inside a try body / suppressing with (suppressing_subscope lists the new definition
+    # nodes), and names of the enclosing function read from a nested function (all definition nodes)
+    "trymulti": [
+        R + "\ndef cond() -> bool:\n    return True\n\ndef f() -> None:\n    try:\n        x = 1\n        cond()\n        x = 'a'\n        cond()\n        x = None\n        cond()\n        x = 2.5\n        cond()\n        x = b'b'\n    except Exception:\n        pass\n    reveal_type(x)\n",
+        R + "import contextlib\n\ndef cond() -> bool:\n    return True\n\ndef f() -> None:\n    y = 0\n    with contextlib.suppress(Exception):\n        y = 'p'\n        cond()\n        y = None\n        cond()\n        y = (1, 2)\n        cond()\n        y = 3.5\n    reveal_type(y)\n    takes_int(y)\n\ndef takes_int(i: int) -> None:\n    pass\n",
+    ],
+    "closure": [
+        R + "\ndef f(c: int) -> None:\n    x = 1\n    x = 'a'\n    x = None\n    x = 2.5\n    def h() -> None:\n        nonlocal x\n        reveal_type(x)\n    h()\n",
+        R + "\ndef f(c: int) -> None:\n    if c:\n        v = 1\n    elif c > 2:\n        v = 'a'\n    else:\n        v = None\n    v = b'x'\n    def h() -> int:\n        return v\n    g = lambda: reveal_type(v)\n    h()\n    g()\n",
     ],
     "scopes": [
         R + "\ndef cond() -> bool:\n    return True\n\ndef f() -> None:\n    try:\n        if cond():\n            x = 1\n        else:\n            y = 2\n        z = 'a'\n    except Exception:\n        x = None\n    finally:\n        reveal_type(x)\n    reveal_type(x)\n    print(y, z)\n    for _ in range(3):\n        w = 3\n    print(w)\n",
